@@ -181,3 +181,90 @@ fn c15_write_exact_9() {
 fn c15_write_exact_17() {
     write_exact::<17>();
 }
+
+// ---------------------------------------------------------------------------------------------
+// C15-d: setVariable / setExpression text -> bytes for integer variables
+// ---------------------------------------------------------------------------------------------
+
+/// decimal reading of the text (digits, optional leading '-'); None = not a number
+fn ref_decimal<const N: usize>(b: &[u8; N]) -> Option<i128> {
+    let mut i = 0;
+    let mut neg = false;
+    if N > 0 && b[0] == b'-' {
+        neg = true;
+        i = 1;
+    }
+    if i >= N {
+        return None;
+    }
+    let mut v: i128 = 0;
+    while i < N {
+        let c = b[i];
+        if !(b'0'..=b'9').contains(&c) {
+            return None;
+        }
+        v = v * 10 + (c - b'0') as i128;
+        i += 1;
+    }
+    Some(if neg { -v } else { v })
+}
+
+fn set_value<const N: usize>() {
+    let b: [u8; N] = kani::any();
+    let mut i = 0;
+    while i < N {
+        kani::assume((b'0'..=b'9').contains(&b[i]) || b[i] == b'-');
+        i += 1;
+    }
+    let s = unsafe { std::str::from_utf8_unchecked(&b) };
+    let want = ref_decimal(&b);
+    // "a later read of that variable returns the written value": the bytes stored must decode, at the
+    // variable's type, to the number the user typed; a number the type cannot hold must be refused
+    let r = parse_set_value(ScalarKind::U8, s);
+    match (&r, want) {
+        (Ok(v), Some(w)) => bsv!(v.len() == 1 && v[0] as i128 == w, "u8: the stored byte reads back as the typed number"),
+        (Ok(_), None) => bsv!(false, "u8: text that is not a number is refused"),
+        // text with a minus sign is not unsigned-number text, even "-0": refusing it is fine
+        (Err(_), Some(w)) => bsv!(b[0] == b'-' || w > u8::MAX as i128, "u8: a representable number is accepted"),
+        (Err(_), None) => {}
+    }
+    kani::cover!(matches!(want, Some(w) if w > 255) , "typed number above u8::MAX");
+    std::mem::forget(r);
+    let r = parse_set_value(ScalarKind::I8, s);
+    match (&r, want) {
+        (Ok(v), Some(w)) => bsv!(v.len() == 1 && (v[0] as i8) as i128 == w, "i8: the stored byte reads back as the typed number"),
+        (Ok(_), None) => bsv!(false, "i8: text that is not a number is refused"),
+        (Err(_), Some(w)) => bsv!(w < i8::MIN as i128 || w > i8::MAX as i128, "i8: a representable number is accepted"),
+        (Err(_), None) => {}
+    }
+    std::mem::forget(r);
+    let r = parse_set_value(ScalarKind::I16, s);
+    match (&r, want) {
+        (Ok(v), Some(w)) => bsv!(v.len() == 2 && i16::from_le_bytes([v[0], v[1]]) as i128 == w, "i16: the stored bytes read back as the typed number"),
+        (Ok(_), None) => bsv!(false, "i16: text that is not a number is refused"),
+        (Err(_), Some(_)) => bsv!(false, "i16: every number of this length is representable"),
+        (Err(_), None) => {}
+    }
+    std::mem::forget(r);
+    kani::cover!(matches!(want, Some(w) if w < 0), "negative number");
+    kani::cover!(want.is_none(), "not a number");
+    kani::cover!(true, "BSV-END");
+}
+
+//@ harness: c15_set_value_int_3
+//@ property: C15
+//@ obligation: H-C15-d
+//@ tier: quick
+//@ encodes: dap::yadap::session::data::parse_set_value (u8, i8, i16 kinds; decimal path)
+//@ symbolic: 3 bytes of text over [0-9-]
+//@ bounds: text length 3 (instance: the shortest text that exceeds a byte); unwind 5
+//@ oracle: setVariable makes a later read return the written value: the stored little-endian bytes decode at the variable's type to the number typed; a number the type cannot hold, or text that is not a number, is an error (never a silently different value)
+//@ stubs: Backtrace::capture -> disabled (anyhow context)
+//@ outside: hex input, floats, bool, char, wider kinds; composite values (serialize.rs)
+//@ timeout: 1500
+#[kani::proof]
+#[kani::stub(std::backtrace::Backtrace::capture, no_backtrace)]
+#[kani::unwind(5)]
+fn c15_set_value_int_3() {
+    set_value::<3>();
+}
